@@ -17,9 +17,13 @@ def run(ctx):
     from . import guardvocab
     guardvocab.G0(ctx, effects={'yield'})
     guardvocab.G1(ctx, effects={'yield'})
+    guardvocab.G2(ctx, scopes=('rt::yield_now', 'rt::thread::Thread::set_yield', 'rt::atomic::State::match_load_to_stores'))
+    guardvocab.G3(ctx, scopes=('rt::yield_now', 'rt::thread::Thread::set_yield', 'rt::atomic::State::match_load_to_stores', 'hint::', 'thread::yield_now', 'rt::atomic::'))
     tlsrules.U1(ctx)
     tlsrules.U2(ctx)
     tlsrules.U3(ctx)
     tlsrules.U4(ctx)
     tlsrules.U5(ctx)
     pathrules.B3(ctx)
+    from . import atomics
+    atomics.R1(ctx)
